@@ -54,6 +54,10 @@ def decorate(spec, variant):
         opts = pc_options(c, PH2, full=False)
         if len(opts) > 1 and (j + variant) % 2 == 0:
             assign[c["n"]] = opts[1 + (j % (len(opts) - 1))]
+    if variant == 4:  # component phase configurations WITHOUT system phases (not defined yet / cleared): they must survive the round trip
+        out = with_phases(sp, PH2, assign)
+        out["phases"] = None
+        return out
     return with_phases(sp, PH2, assign) if variant != 2 else sp
 
 
@@ -117,6 +121,26 @@ def check_case(case):
         kinds = case.get("kind", fam)
         res.v(("C12.roundtrip-differs", rep, kinds, what), "%s" % d)
     # a second generation must be a fixed point of save()
+    if case.get("resave"):
+        # the SAME object is edited after its first save (limits of one component changed through change_comp) and saved again
+        from ..sysmodel import make_comp
+        tgt = [c for c in spec["comps"] if c["k"] != "Source"][0]
+        newc = copy.deepcopy(tgt)
+        newc["lim"] = {"vi": [0.0, 0.123], "tp": [-5.0, 26.5]} if tgt["k"] not in ("Source",) else {"io": [0.0, 1e-4]}
+        ch = [c["n"] for c in spec["comps"] if tgt["n"] in c["p"] or tgt.get("r") in c["p"]]
+        try:
+            s.change_comp(tgt["n"], comp=make_comp(newc), group=tgt.get("g", ""), rail=tgt.get("r", ""))
+            if tgt.get("pc") is not None and spec.get("phases"):
+                s.set_comp_phases(tgt["n"], copy.deepcopy(tgt["pc"]))
+            a2 = all_reports(s, REPORTS)
+            s4, _, _ = roundtrip(res, s, "rs")
+            if s4 is not None:
+                for rep, d in diff_reports(a2, all_reports(s4, REPORTS), 1e-9, 1e-12)[:4]:
+                    what = __import__("re").sub(r"^\(.*?\)\s*", "", d).split(":")[0][:40]
+                    res.v(("C12.roundtrip-differs-after-edit", rep, what), "%s" % d)
+                res.classes.add("resave")
+        except ValueError:
+            res.classes.add("resave-edit-rejected")
     s3, doc3, _ = roundtrip(res, s2, "r2")
     if s3 is not None and json.dumps(doc3, sort_keys=True) != json.dumps(save_doc(s2, "r3")[0], sort_keys=True):
         res.v(("C12.save-not-deterministic",), "")
@@ -152,6 +176,8 @@ def gen_cases(tier):
                 yield dict(fam="tree", f=f, pal=pal, variant=variant, pol=-1 if variant == 3 else 1)
             # the same structure reached through an edit history that frees and re-uses node indices (save() walks the graph by index)
             yield dict(fam="tree", f=f, pal=pal, variant=0, pol=1, holes=True)
+            yield dict(fam="tree", f=f, pal=pal, variant=4, pol=1)
+            yield dict(fam="tree", f=f, pal=pal, variant=1, pol=1, resave=True)
     if tier == "quick":
         for f in itertools.islice(mid.iter_forests(3), 0, None, 5):
             yield dict(fam="tree", f=f, pal=pal, variant=1)
@@ -182,12 +208,12 @@ def main(tier):
         run.map(check_case, gen_cases(tier), chunk=8, family="roundtrip")
     finally:
         _cw()
-    for c in ("kind", "tree", "mux", "edited-system", "version:newer-patch:ValueError", "version:same:loaded"):
+    for c in ("kind", "tree", "mux", "edited-system", "resave", "version:newer-patch:ValueError", "version:same:loaded"):
         run.require(c in run.classes, "class %s never observed" % c)
     return run.finish(
         rule="(a) for each of the 11 kinds every subset of optional constructor parameters x every mandatory-value form, and every alternative form (list / 1-D / 2-D table / negative / integer) "
              "of each optional parameter, in a 2-phase probe system in which the element sleeps or changes value so that every parameter moves a solved cell; applicable limits, a group and a rail "
              "with a child attached through the rail; (b) every tree of the mid alphabet n<=2 (3 thorough; every 5th n=3 tree in quick) x 4 decorations (rails, by-rail attachment, groups, "
              "limits, phase configurations, negative polarity) and once reached through an edit history with freed / re-used node indices; (c) every 2- and 3-input PMux tuple x EVERY permutation of the priority order; (d) version gate: same / older / newer in "
-             "patch, minor, major. Oracle: solve(energy=True), rail_rep(), params(limits=True), phases(), tree() of S and of from_file(save(S)) equal (keyed, exact); save o load o save is a fixed point.",
+             "patch, minor, major. Oracle: solve(energy=True), rail_rep(), params(limits=True), phases(), tree() of S and of from_file(save(S)) equal (keyed, exact); save o load o save is a fixed point; trees additionally with component phase configurations but no system phases, and with a component's limits changed through change_comp after a first save of the same object.",
         assumptions=["only applicable limits are configured (save() writes the applicable subset by design)", "one palette per run"])
